@@ -171,7 +171,16 @@ func runC20(src sim.Source, o Opts) *Result {
 		if kind == model.KRedirect {
 			beh = "builtin"
 		}
-		scripts = append(scripts, fmt.Sprintf("%s %s -> %s/%s/%d/loc=%v", p.Method, p.Path, kind, beh, status, withLoc))
+		// one request in five is sent with an escaped form that differs from its decoded path (RawPath set): the record
+		// carries the request path, as Context.Path and net/http's URL.Path have it
+		rawPath := ""
+		if kind != model.KRedirect && src.Intn("escapedpath", 5) == 0 {
+			rawPath = strings.Replace(p.Path, "/v", "/%76", 1) // %76 = 'v', a needlessly escaped byte
+			if rawPath == p.Path {
+				rawPath = ""
+			}
+		}
+		scripts = append(scripts, fmt.Sprintf("%s %s (escaped %q) -> %s/%s/%d/loc=%v", p.Method, p.Path, rawPath, kind, beh, status, withLoc))
 		pv := sim.Pick(src, "panicvalue", []any{"boom", errors.New("boom"), customPanic{1}})
 		// the peer address: IPv4, IPv6, IPv6 with a zone, and forms without a parsable IP (unix-socket peers)
 		remote := sim.Pick(src, "remoteaddr", []string{"192.0.2.1:1234", "192.0.2.1:1234", "[2001:db8::1]:80", "[fe80::1%eth0]:1234", "@", ""})
@@ -221,7 +230,7 @@ func runC20(src sim.Source, o Opts) *Result {
 					*returned = true
 				}
 			}}
-			req := world.NewRequest(p.Method, p.Host, p.Path, "", "", log)
+			req := world.NewRequest(p.Method, p.Host, p.Path, rawPath, "", log)
 			req.RemoteAddr = remote
 			if beh == "failing-conn" {
 				conn.FailAfter = 1
